@@ -92,6 +92,10 @@ SetOps3 == {<<"null", 0>>, <<"int", <<45, 55>>>>, <<"str", <<122, 9>>>>, <<"str"
 SetOpsNonFinite == {<<"float", <<78, 97, 78>>>>, <<"float", <<73, 110, 102>>>>, <<"float", <<45, 73, 110, 102>>>>, <<"float", <<48, 46, 53>>>>}
 \* every byte that must be escaped, DEL, and multi-byte UTF-8, as key and as value
 ByteStrs == {<<b>> : b \in 0..127} \cup {<<195, 169>>, <<226, 130, 172>>, <<240, 159, 152, 128>>, <<92, 34, 47, 8, 12, 10, 13, 9>>, <<1, 31, 127, 34>>}
+              \* bytes that are NOT UTF-8 (the parser passes them through, so must the marshaller), alone and next to bytes that need
+              \* escaping; U+2028 / U+2029 (valid, some encoders escape them)
+              \cup {<<255>>, <<128>>, <<192, 175>>, <<237, 176, 128>>, <<226, 40>>, <<255, 10>>, <<9, 237, 176, 128, 34>>, <<92, 255>>,
+                    <<226, 128, 168>>, <<226, 128, 169, 31>>, <<255, 226, 128, 168, 1>>, <<240, 159, 152>>, <<34, 240, 159, 152>>}
 DocsBytes == {<<<<"o", <<<<k, <<"s", k>>>>>>>>>> : k \in ByteStrs} \cup {<<<<"a", <<<<"s", k>>, <<"o", <<<<k, n>>, <<ka, t>>>>>>>>>>>> : k \in ByteStrs}
 \* one byte (every value < 0x80) at every position 0..17 of a string padded with letters, followed by 0 / 7 / 16 more letters;
 \* and two bytes that need escaping at every pair of positions: word-at-a-time or SIMD scanning in the escaper has to get every
